@@ -6,6 +6,8 @@
    (./check C01).  Statements only. *)
 From Compio.Model Require Import Base DriverKeys.
 From Compio.Thm Require Import DriverKeysThm.
+From Compio.Model Require Import PollDrv.
+From Compio.Thm Require Import PollDrvThm.
 
 (* the bookkeeping invariant (reference-count equation) holds in every state
    reachable by ANY sequence of events of any length, for any number of
@@ -94,3 +96,24 @@ Example C01_drop_order_example :
                                EKeyFree 0; EDropEnd] = Some s /\ quiescent s = true.
 Proof. split; [vm_compute; reflexivity|]. eexists. split; vm_compute; reflexivity. Qed.
 Print Assumptions C01_drop_order_example.
+
+(* ---- polling driver: what the OS poller holds (model/PollDrv.v: FdQueue, submit,
+   submit_front, renew, remove_one, poll_one; tied to the code by the history acceptor
+   paccept in RunDRV.v) ---- *)
+
+(* in every reachable state of the per-descriptor queues (any sequence of pushes,
+   cancellations and readiness events, usable or not): a registered descriptor carries
+   as user data an operation that IS queued on it — never the address of an operation
+   that was cancelled, completed and freed — and a descriptor without waiters is not
+   registered at all *)
+Theorem C01_poller_user_data_is_queued : forall os fd,
+  let s := fold_left pstep os pinit in
+  match alookup (pol s) fd with
+  | Some a =>
+    let q := get_q s fd in
+    (a_r a = true <-> rq q <> []) /\ (a_w a = true <-> wq q <> []) /\
+    In (a_key a) (rq q ++ wq q)
+  | None => rq (get_q s fd) = [] /\ wq (get_q s fd) = []
+  end.
+Proof. intros os fd. apply armed_iff_waiting. apply reachable_pinv. Qed.
+Print Assumptions C01_poller_user_data_is_queued.
